@@ -81,7 +81,7 @@ def chains(ctx, constants):
 
 def run(ctx):
     ctx.rule = ("every expression tree with <= MaxOps operator/bracket nodes (derivation machine MC_C05); "
-                "plus left- and right-nested runs of up to 40 (quick) / 140 (thorough) operators (MC_C05_chain); "
+                "plus left- and right-nested runs of up to 148 (quick) / 560 (thorough) operators (MC_C05_chain); "
                 "each is rendered min/full/bws/fullbws by the spec printer and parsed by the real parser; "
                 "non-trivial = distinct tree with >= 2 operator nodes")
     ctx.trusted = ["spec/OData.tla precedence table + printers (checked against the spec parser by TLC)",
@@ -107,7 +107,7 @@ def run(ctx):
         if res.violation:
             ctx.violation({"kind": "model", "inv": res.violation}, {"tlc": res.raw_tail[-2000:]})
         check_records(ctx, res.records, "narrow3")
-        chains(ctx, {"Lens1": "{1, 2, 16, 17, 18, 19, 33, 64, 100}", "Lens2": "{0, 1, 17, 18, 40}", "Mixed": "TRUE"})
+        chains(ctx, {"Lens1": "{1, 2, 16, 17, 18, 19, 33, 64, 100, 257, 520}", "Lens2": "{0, 1, 17, 18, 40}", "Mixed": "TRUE"})
         ctx.exhaustive = True
 
 
